@@ -130,8 +130,8 @@ func c04R2R3(c *Ctx) {
 			continue
 		}
 		nReuse, nGrant := 0, 0
-		okFail, okRev, okTol, okTested := true, true, true, true
-		var wFail, wRev, wTol, wTested *Path
+		okFail, okRev, okTol, okTested, okClass := true, true, true, true, true
+		var wFail, wRev, wTol, wTested, wClass *Path
 		whyRev, whyTol := "", ""
 		for _, p := range ex.Paths {
 			lk := p.First(".GetRefreshTokenSession")
@@ -139,6 +139,9 @@ func c04R2R3(c *Ctx) {
 				continue
 			}
 			stored, lerr := lk.Ret(0), lk.Ret(1)
+			if _, known := p.idx[atomB(call("errors.Is", lerr, gl("fosite.ErrInactiveToken"))).Key()]; p.Kind == "return" && !known && !p.IsNil(lerr) {
+				okClass, wClass = false, p
+			}
 			if p.Holds(atomB(call("errors.Is", lerr, gl("fosite.ErrInactiveToken"))), true) {
 				nReuse++
 				if p.Classify() != ExitFail && p.Classify() != ExitPanic {
@@ -188,6 +191,7 @@ func c04R2R3(c *Ctx) {
 			c.Check(nGrant > 0 && okRev, "C04.R2", role, fn, "reuse-revokes-family", "the invalid_grant exit of the reuse branch is reached only after RevokeRefreshToken and RevokeAccessToken ran with GetID(stored)", whyRev, wRev)
 			c.Check(okTol, "C04.R2", role, fn, "reuse-tolerates-only-notfound", "the reuse branch continues past a failed storage call only for ErrNotFound", whyTol, wTol)
 		}
+		c.Check(okClass, "C04.R2", role, fn, "reuse-classified-first", "every exit after the refresh-token lookup is taken only once its error was tested against ErrInactiveToken (or is nil): no other check can pre-empt reuse detection", "an exit is reachable after the lookup without the inactive-token test", wClass)
 		c.Check(okTested, "C04.R3", role, fn, "success-needs-active-token", "success exits require a nil lookup error with the inactive-token test evaluated false", "a success exit is reachable without the lookup error having been classified", wTested)
 	}
 	checkCredentialValidated(c, "C04.R3", "refresh", fns, nil, ".GetRefreshTokenSession", ".ValidateRefreshToken", 2)
